@@ -545,6 +545,26 @@ def gen_consts():
     need(float(m.group(1)) == int(float(m.group(1))), "history divisor not integral")
     const("HISTORY_BONUS_DIVISOR", int(float(m.group(1))))
     need(re.search(r"history\[index\] = history\[index\]\.saturating_add\(real_bonus as u16\)", body), "history update shape")
+    # the table's recount of mate scores (score_to_table / score_from_table)
+    margins = []
+    for fn in ("score_to_table", "score_from_table"):
+        b2 = fn_body(search, fn)
+        m1 = re.search(r"score > Score::MAX - ((?:\w+::)*\w+)", b2)
+        m2 = re.search(r"score < Score::MIN \+ ((?:\w+::)*\w+)", b2)
+        need(m1 and m2, "mate margins of " + fn)
+        margins += [int_value(m1.group(1), "mate margin"), int_value(m2.group(1), "mate margin")]
+    need(len(set(margins)) == 1, "the four mate margins of the table recount differ")
+    const("TABLE_MATE_MARGIN", margins[0])
+    b2 = fn_body(search, "score_to_table")
+    m1 = re.search(r"\.saturating_add\(real_depth as Score\)\s*\.min\(-\(Score::MIN \+ ((?:\w+::)*\w+)\)\)", b2)
+    m2 = re.search(r"\.saturating_sub\(real_depth as Score\)\s*\.max\(Score::MIN \+ ((?:\w+::)*\w+)\)", b2)
+    need(m1 and m2, "clamp of score_to_table")
+    node_off = int_value(re.search(r"Score::MIN \+ ((?:\w+::)*\w+) \+ real_depth as Score", body).group(1), "mate offset")
+    need(int_value(m1.group(1), "clamp") == node_off and int_value(m2.group(1), "clamp") == node_off, "score_to_table does not clamp at the node's mate score")
+    b3 = fn_body(search, "score_from_table")
+    need(re.search(r"score - real_depth as Score", b3) and re.search(r"score \+ real_depth as Score", b3), "shape of score_from_table")
+    need(re.search(r"let score = score_from_table\(entry\.score, real_depth\);", body), "the probe does not recount the entry's score")
+    need(re.search(r"score: score_to_table\(best_score, real_depth\),", body), "the stored entry is not recounted")
     body = fn_body(search, "get_best_move_score_depth_1")
     m = re.search(r"Score::MIN \+ ((?:\w+::)*\w+) \+ real_depth as Score", body)
     need(m, "mate offset of depth 1")
